@@ -133,8 +133,62 @@ def run_c13(tier, seed, out):
                         "the T + 1 s bound is exact under the paused clock only"]
 
 
-RUNNERS = {"C13": run_c13, "C04": run_c04, "C05": run_c05, "C06": run_c06}
-SPECS = {"C13": "TraceLifecycle", "C04": "TraceDemux", "C05": "TraceLink", "C06": "TraceArp"}
+ROUTER_CFG = """SPECIFICATION Spec
+CONSTANTS
+  Subnets = {0, 1, 2}
+  Routers = {"a", "b"}
+  Attach <- AttLine
+  Route <- %s
+  Gateway <- GwLine
+  HostOn <- %s
+  Ttl0 = %d
+  Sends <- SendsA
+INVARIANTS TtlBound HopDecrement NoMultiply OnlyDst Silence
+CHECK_DEADLOCK FALSE
+"""
+
+
+def run_c16(tier, seed, out):
+    log("[C16] model checking Router.tla (correct, missing and looping routes; all interleavings of forwarding)")
+    for rt, hosts in (("RouteOk", "AllHosts"), ("RouteLoop", "AllHosts"), ("RouteMissing", "AllHosts"), ("RouteOk", "NoHost2")):
+        model(out, "MC_Router.tla", ROUTER_CFG % (rt, hosts, 4 if tier == "quick" else 5), "router-%s-%s" % (rt, hosts), workers=8, timeout=900)
+    log("[C16] real ArpRouter topologies (line, star, ring) validated by TraceRouter.tla")
+    build_harness(("hv-sim",))
+    drive_validate_resumable(out, "C16", HV_SIM, "router-drive", "TraceRouter", 500 if tier == "quick" else 8000, seed, "routing scenarios")
+    out.cov["rule"] = ("lines of 1-3 routers, stars over 2-4 subnets, rings of 3 routers; 1-2 hosts per subnet; routes: shortest path, one entry missing, one entry "
+                       "redirected, or chasing routes for an unknown subnet (loops of 2 and 3 routers); 1-5 datagrams to existing hosts, nobody's address, a subnet "
+                       "that does not exist; every IPv4 frame on every network recorded with its TTL; distinct counted as runs")
+    out.cov["distinct_nontrivial"] = max(out.cov["distinct_nontrivial"], out.cov["traces_validated_against_impl"])
+
+
+DNS_CFG = """SPECIFICATION Spec
+CONSTANTS
+  Clients = {"c1", "c2"}
+  Names = {"x", "y"}
+  Addr <- AddrA
+  MaxLookups = %d
+INVARIANTS Right Echo CacheRight CachedSilent NoLoss
+CHECK_DEADLOCK FALSE
+"""
+
+
+def run_c20(tier, seed, out):
+    log("[C20] model checking Dns.tla (lookups, cache, queries and replies in any delivery order)")
+    model(out, "MC_Dns.tla", DNS_CFG % (4 if tier == "quick" else 5), "dns", workers=8, timeout=900)
+    log("[C20] real DnsServer / DnsClients with delayed frames validated by TraceDns.tla")
+    drive_validate_resumable(out, "C20", HV_CORE, "dns-drive", "TraceDns", 300 if tier == "quick" else 5000, seed, "lookup scenarios")
+    tp = os.path.join(workdir("fn-C20"), "dns-long.ndjson")
+    args = ["dns-drive", "--seed", str(seed + 1), "--long-names", "--out", tp]
+    n = 80 if tier == "quick" else 1000
+    st = hv_resumable(HV_CORE, args, n)
+    chunked_validate(out, "C20", "TraceDns", tp, args + ["--runs", str(n)], 60000)
+    out.cov["rule"] = ("1-3 names of printable characters other than the delimiter (lengths 1..24, and 25..40 in the second batch), random addresses, 1-3 clients "
+                       "with 1-3 lookups each (concurrent, repeated, at 0 / 2 ms / 0.4 s / 0.9 s), every frame delayed by 0 / 1 / 5 / 20 ms; distinct counted as runs")
+    out.cov["distinct_nontrivial"] = max(out.cov["distinct_nontrivial"], out.cov["traces_validated_against_impl"])
+
+
+RUNNERS = {"C13": run_c13, "C16": run_c16, "C20": run_c20, "C04": run_c04, "C05": run_c05, "C06": run_c06}
+SPECS = {"C13": "TraceLifecycle", "C16": "TraceRouter", "C20": "TraceDns", "C04": "TraceDemux", "C05": "TraceLink", "C06": "TraceArp"}
 
 
 def run(prop, tier, seed, out, replay=None):
@@ -144,12 +198,12 @@ def run(prop, tier, seed, out, replay=None):
     if replay:
         r = json.load(open(replay))
         args = r["driver"]
-        if prop in ("C13",):
+        if prop in ("C13", "C16", "C20"):
             build_harness(("hv-sim",))
             a2 = [x for x in args]
             runs = int(a2[a2.index("--runs") + 1])
             del a2[a2.index("--runs"):a2.index("--runs") + 2]
-            hv_resumable(HV_SIM, a2, runs)
+            hv_resumable(HV_CORE if prop == "C20" else HV_SIM, a2, runs)
         else:
             hv(HV_CORE, args)
         tp = args[args.index("--out") + 1]
